@@ -440,7 +440,7 @@ class ContCase:
             self.emit("b", "str", "BS", "S", ("bytes", want))
             del b[:]
         elif r < 0.80:
-            f = self.blob() * rng.choice([1, 1, 3, 40])
+            f = (self.blob() * rng.choice([1, 1, 2, 9]))[:45000]
             q = rng.random()
             if q < 0.3:
                 cs = []
@@ -453,7 +453,13 @@ class ContCase:
             del b[:]
             b += f
         elif r < 0.88:
-            self.emit("b", "getline", "BL", "L", ("lines", pylines(bytes(b))))
+            # the model's getline is quadratic in the driver: large buffers get one getline loop per case
+            if len(b) > 6000:
+                if self.kinds.get("getline-large"):
+                    return
+                self.emit("b", "getline-large", "BL", "L", ("lines", pylines(bytes(b))))
+            else:
+                self.emit("b", "getline", "BL", "L", ("lines", pylines(bytes(b))))
         elif r < 0.92:
             self.emit("b", "len", "BN", "N", ("n", len(b)))
         elif r < 0.96:
